@@ -249,6 +249,34 @@ pub fn judge(_cfg: &Config, case: &Case, l: &mut Local) {
                             case,
                         ),
                     }
+                    // MTnnn::parse(input), where the type offers it: same body as the typed parse, from the full
+                    // text and from the bare text block
+                    if let Ok(Some(r)) = guard(|| crate::registry::inherent_parse(code, text)) {
+                        match (&typed, &r) {
+                            (Ok(t), Ok(j)) => {
+                                if let Ok(Ok(jb)) = guard(|| t.body().json())
+                                    && let Some(d) = first_diff(j, &jb)
+                                {
+                                    v(l, "MTnnn::parse", code, "differs-from-typed", format!("MT{code}::parse(full text) differs from the typed parse at {d}"), case);
+                                }
+                            }
+                            (Ok(_), Err(e)) => v(l, "MTnnn::parse", code, "rejects-what-typed-accepts", format!("MT{code}::parse: {}", short(e)), case),
+                            _ => {}
+                        }
+                        if let Some(b4) = crate::corpus::block4_of(text)
+                            && let Ok(Some(rb)) = guard(|| crate::registry::inherent_parse(code, &b4))
+                            && let Ok(pb) = guard(|| (ops.parse_b4)(&b4))
+                        {
+                            let same = match (&rb, &pb) {
+                                (Ok(a), Ok(b)) => b.json().ok().as_ref() == Some(a),
+                                (Err(_), Err(_)) => true,
+                                _ => false,
+                            };
+                            if !same {
+                                v(l, "MTnnn::parse", code, "block4-route-differs", format!("MT{code}::parse(text block) and parse_from_block4 disagree"), case);
+                            }
+                        }
+                    }
                     match (&typed, &plug_parse) {
                         (Ok(t), Ok((j, _method))) => {
                             let jt = t.json().unwrap_or(Value::Null);
